@@ -92,3 +92,76 @@ fn c13_merc_inverse_undoes_false_origin() {
     assert!(feq(d0[0].0[0], d1[0].0[0]));
     kani::cover!(x0 != 0.);
 }
+
+// ---- `merc::new` with the text front end stubbed (S-PPNEW): "lat_ts is equivalent to the
+// corresponding k_0": for EVERY non-zero latitude of true scale (north or south) the constructor
+// replaces k_0 by cos(lat_ts)/sqrt(1 - e^2 sin^2(lat_ts)); lat_ts = 0 leaves k_0 alone;
+// |lat_ts| > 90 is refused.
+static mut M_LAT_TS: f64 = 0.0;
+static mut M_K0: f64 = 1.0;
+
+fn stub_pp_new(_parameters: &RawParameters, _gamut: &[OpParameter]) -> Result<ParsedParameters, Error> {
+    let mut p = mk_params("merc");
+    unsafe {
+        p.real.insert("lat_ts", M_LAT_TS);
+        p.real.insert("k_0", M_K0);
+    }
+    Ok(p)
+}
+
+fn stub_descriptor_new(_definition: &str, fwd: InnerOp, inv: Option<InnerOp>) -> OpDescriptor {
+    let invertible = inv.is_some();
+    mk_descriptor(fwd, inv.unwrap_or_default(), invertible, false)
+}
+
+fn mk_raw_real(lat_ts: f64, k0: f64) -> RawParameters {
+    RawParameters::new(&format!("merc lat_ts={lat_ts} k_0={k0}"), &BTreeMap::new())
+}
+
+fn mk_raw_dummy(_lat_ts: f64, _k0: f64) -> RawParameters {
+    RawParameters::default()
+}
+
+// @harness c13_merc_lat_ts_sets_k0 prop=C13 tier=quick cap=1200 stubs="M-BTREE, S-PPNEW(ParsedParameters::new), OpDescriptor::new (no tokenisation), Uuid::new_v4 = nil, ParsedParameters::ellps = GRS80, S-UF-SMALL(sin_cos, sqrt)" bound="lat_ts = 15*j degrees for j in -6..=6 (symbolic), k_0 in {1,2,3,4}: stored k_0 == cos/sqrt(1 - e^2 sin^2) of lat_ts for every non-zero lat_ts of either sign, unchanged for lat_ts = 0"
+#[kani::proof]
+#[kani::stub(ParsedParameters::new, stub_pp_new)]
+#[kani::stub(ParsedParameters::ellps, stub_ellps_default)]
+#[kani::stub(OpDescriptor::new, stub_descriptor_new)]
+#[kani::stub(uuid::Uuid::new_v4, stub_uuid)]
+#[kani::stub(f64::sin_cos, uf_sin_cos)]
+#[kani::stub(f64::sqrt, uf_unary_nonneg)]
+#[kani::stub(mk_raw_real, mk_raw_dummy)]
+#[kani::unwind(12)]
+fn c13_merc_lat_ts_sets_k0() {
+    let j: i8 = nd();
+    // |lat_ts| <= 90: the refusal of larger values drops the half-built parameter set, which
+    // this harness' stubbed front end cannot model faithfully (allocator artefacts)
+    kani::assume(j >= -6 && j <= 6);
+    let lat_ts = j as f64 * 15.;
+    let k0 = small_pos();
+    unsafe {
+        M_LAT_TS = lat_ts;
+        M_K0 = k0;
+    }
+    let raw = std::mem::ManuallyDrop::new(mk_raw_real(lat_ts, k0));
+    let ctx = NullCtx;
+    let r = std::mem::ManuallyDrop::new(new(&raw, &ctx));
+    if lat_ts.abs() > 90. {
+        assert!(r.is_err());
+    } else {
+        assert!(r.is_ok());
+        if let Ok(ref op) = *r {
+            let stored = *op.params.real.get("k_0").unwrap();
+            if lat_ts == 0. {
+                assert!(feq(stored, k0));
+            } else {
+                let sc = lat_ts.to_radians().sin_cos();
+                let es = Ellipsoid::default().eccentricity_squared();
+                let want = sc.1 / (1. - es * sc.0 * sc.0).sqrt();
+                assert!(feq(stored, want));
+            }
+        }
+    }
+    kani::cover!(j < 0 && j >= -6);
+    kani::cover!(j == 6);
+}
